@@ -42,10 +42,10 @@ FnSigs(e) ==
     LET d == e["in"]
         want == ToLengthPrefixed(d)
     IN   (IF "avcc" \in DOMAIN e /\ e.avcc # want
-          THEN {FSig("C14", "Reframe", "annexb_to_avcc", IF ParsePrefixed(e.avcc, 1) = << -1 >> THEN "does-not-parse" ELSE "wrong-units")} ELSE {})
+          THEN {FSig("C14", "Reframe", "annexb_to_avcc", IF ParsePrefixed(e.avcc, 1) = << << -1 >> >> THEN "does-not-parse" ELSE "wrong-units")} ELSE {})
     \cup (IF "avcc" \in DOMAIN e /\ ~ReframeExact(d, e.avcc) THEN {FSig("C14", "ReframeExact", "annexb_to_avcc", "statement")} ELSE {})
     \cup (IF "hvcc" \in DOMAIN e /\ e.hvcc # want
-          THEN {FSig("C14", "Reframe", "hevc_annexb_to_hvcc", IF ParsePrefixed(e.hvcc, 1) = << -1 >> THEN "does-not-parse" ELSE "wrong-units")} ELSE {})
+          THEN {FSig("C14", "Reframe", "hevc_annexb_to_hvcc", IF ParsePrefixed(e.hvcc, 1) = << << -1 >> >> THEN "does-not-parse" ELSE "wrong-units")} ELSE {})
     \cup (IF "iter" \in DOMAIN e /\ e.iter # Units(d) THEN {FSig("C14", "Units", "AnnexBNalIter", "differs")} ELSE {})
     \cup (IF "fsc" \in DOMAIN e /\ \E f \in 1..Len(e.fsc) : e.fsc[f] # ExpFsc(d, f)
           THEN {FSig("C14", "StartCode", "find_start_code", "differs")} ELSE {})
@@ -64,7 +64,8 @@ FnSigs(e) ==
 
 TFn == /\ l <= Len(Rec) /\ Rec[l].ev = "fn" /\ l' = l + 1 /\ hdr' = hdr /\ n' = n + 1
        /\ LET e == Rec[l]  k == hdr.base + hdr.stride * n IN
-          /\ (e.k = k /\ e["in"] = StrOf(hdr.alpha, k))
+          /\ ("explicit" \in DOMAIN hdr)                                \* explicit list of inputs: nothing to enumerate
+               \/ (e.k = k /\ e["in"] = StrOf(hdr.alpha, k))
                \/ (PrintT("INCOMPLETE|" \o ToString(l)) /\ FALSE)      \* enumeration broken: stop (tool error)
           /\ \A s \in FnSigs(e) : SigLine(e.k, l, s)
 
